@@ -290,12 +290,14 @@ def run_updates(case):
                 T['xyz'.index(ax[0]), 'xyz'.index(ax[1])] += val
         return np.linalg.solve(T, (r - b * dt[:, None]).T).T, np.linalg.cond(T)
 
-    ops = ['U0', 'U1', 'U2', 'U3', 'C', 'R']
+    # G (get_estimates) and M (output_matrix of one reading) are observations: as operations of the alphabet they
+    # must not change anything that a later operation reads
+    ops = ['U0', 'U1', 'U2', 'U3', 'C', 'R', 'G', 'M']
     states = set()
     trans = 0
     for L in range(0, 5):
         for seq in itertools.product(ops, repeat=L):
-            if L == 4 and 'C' not in seq:
+            if L == 4 and ('C' not in seq or sum(o_ in 'GM' for o_ in seq) > 1):
                 continue        # length-4 sequences are only needed for the interleavings with correct
             model = fresh()
             total = np.zeros(n)
@@ -304,6 +306,16 @@ def run_updates(case):
                 if op == 'R':
                     model.reset_estimates()
                     total = np.zeros(n)
+                elif op == 'G':
+                    got_g = model.get_estimates().values
+                    if np.abs(got_g - total).max() > 8 * EPS:
+                        v('c14-accumulation', 'inside %s get_estimates gives %s, the sum of the updates since the last '
+                          'reset is %s' % (list(seq), got_g.tolist(), total.tolist()))
+                elif op == 'M':
+                    Hm = model.output_matrix(r[3])
+                    if Hm.shape != (3, n) or not np.isfinite(Hm).all():
+                        v('c14-output-matrix-shape', 'output_matrix of one reading has shape %s' % (Hm.shape,))
+                    Hm[...] = 7.0               # the caller owns what it was handed
                 elif op == 'C':
                     got = model.correct_increments(dts, table).values
                     exp, cond = expected_correct(total)
